@@ -563,6 +563,11 @@ func irrelevantAxioms(lines []string, rest []string) map[int]bool {
 	// it is kept.
 	freq := map[string]int{}
 	for _, a := range axs {
+		if a.def != "" {
+			// definitions of abstract views (representations) are judged separately (a.def): they must not change which
+			// symbols are "rare" for the background theories, or adding a view elsewhere drops byte-string axioms here
+			continue
+		}
 		seen := map[string]bool{}
 		for _, s := range a.syms {
 			if !seen[s] {
